@@ -73,7 +73,10 @@ def run_case(case, expected, wd):
     elif site == 'logfield':
         tp['args']['log_msg'] = 'a ' + ' | '.join('{%s}' % e for e in exprs) + ' z'
     elif site == 'metric':
-        tp['metrics'] = [Metric(name='m%d' % i, type=MetricType.COUNTER, expression=e) for i, e in enumerate(exprs)]
+        # every metric also has a label expression of its own: a failing VALUE expression costs the value only
+        tp['metrics'] = [Metric(name='m%d' % i, type=MetricType.COUNTER, expression=e,
+                                labelExpressions=[LabelExpression(key='own', expression=NB_EXPR)])
+                         for i, e in enumerate(exprs)]
     elif site == 'label':
         tp['metrics'] = [Metric(name='m', type=MetricType.GAUGE,
                                 labelExpressions=[LabelExpression(key='k%d' % i, expression=e)
@@ -137,6 +140,10 @@ def run_case(case, expected, wd):
             if [m[2] for m in ms] != ['m%d' % i for i in range(len(exprs))]:
                 return 'metric calls %r' % (ms,)
             got = [('ERR' if m[7] == 1 else 'OK', _num(m[7])) for m in ms]
+            for m in ms:
+                if m[3].get('own') not in ('111', '111.0'):
+                    return 'metric %s: its label expression shows %r (labels %r), expected 111 - whatever the value ' \
+                           'expression does' % (m[2], m[3].get('own'), m[3])
         else:
             ms = [c_ for c_ in plugin.calls if c_[0] == 'metric']
             if len(ms) != 1:
